@@ -47,6 +47,9 @@ pub enum Kind {
     Stream,
     /// composite of n eventfd-backed Generic children (READ/Level), optionally each in a TransientSource
     Comp { n: u8, transient: bool },
+    /// a user-written source that registers its eventfd with the Poll directly and calls its callback for
+    /// every event it is handed (no token filtering of its own, no clean-up on drop)
+    Raw,
 }
 
 impl Kind {
@@ -63,6 +66,7 @@ impl Kind {
             Kind::Stream => 9,
             Kind::Comp { transient: false, .. } => 10,
             Kind::Comp { transient: true, .. } => 11,
+            Kind::Raw => 12,
         }
     }
     pub fn name(&self) -> &'static str {
@@ -76,6 +80,7 @@ impl Kind {
             Kind::Stream => "stream",
             Kind::Comp { transient: false, .. } => "composite",
             Kind::Comp { transient: true, .. } => "composite_transient",
+            Kind::Raw => "raw_custom",
         }
     }
 }
@@ -94,6 +99,9 @@ pub struct Fault {
     pub nth: u8,
     /// fail before delegating to the wrapped source (true) or after it succeeded (false)
     pub before: bool,
+    /// a source that fails late without undoing what it had registered (sloppy user code)
+    #[serde(default)]
+    pub sloppy: bool,
 }
 
 /// what a callback returns to its source
